@@ -78,6 +78,13 @@ class DataTypeBuilder(_parser.StatementStreamProcessor):
         self._is_deprecated = False
 
     def finalize(self) -> _serializable.CompositeType:
+        if _verif_trace.ENABLED:
+            _verif_trace.emit(
+                "finalize",
+                sections=[[len(b.fields), len(b.constants), b.union, str(b.serialization_mode)] for b in self._structs],
+                deprecated=self._is_deprecated,
+                pending=self._element_callback is not None,
+            )
         if len(self._structs) == 1:  # Structure type
             (builder,) = self._structs
             out = self._make_composite(
@@ -287,6 +294,8 @@ class DataTypeBuilder(_parser.StatementStreamProcessor):
         self._element_callback = element_callback
 
     def _flush_attribute(self, comment: str) -> None:
+        if _verif_trace.ENABLED:
+            _verif_trace.emit("commit", pending=self._element_callback is not None, doc=comment, section=len(self._structs))
         if self._element_callback is not None:
             self._element_callback(comment)
         self._element_callback = None
